@@ -472,6 +472,49 @@ def b9(ctx, rid):
         ctx.bad(rid, key, f.where(), 'the two bound updates of the range merge exclude each other: merging a range that is wider on both sides extends only one bound, and keys beyond the other bound are answered `absent`')
 
 
+def b10(ctx, rid):
+    """two bloom filters are OR-ed only when they are compatible: the same number of hashers and the same bit length; any other
+    pair must make the merge fail (so that the group filter degrades to `unknown`, B5)"""
+    prog = ctx.prog
+    f = prog.fns.get('filter::bloom::Bloom::checked_add_assign')
+    if f is None:
+        raise core.AnchorLost('Bloom::checked_add_assign')
+    ors = [c for c in f.calls if c.name == 'or_with']
+    if not ors:
+        raise core.AnchorLost('or_with in Bloom::checked_add_assign')
+    for what, fld in (('hashers', 'hashers'), ('bit-length', 'inner')):
+        key = 'merge-guard|%s' % what
+        guards = []
+        for i, b in enumerate(f.blocks):
+            if b['c'] or i not in f.reachable():
+                continue
+            for s in b['s']:
+                if s['k'] == 'a' and s['r']['k'] == 'bin' and s['r']['op'] in ('Eq', 'Ne'):
+                    sides = []
+                    for o in (s['r']['a'], s['r']['b']):
+                        ogs = core.origins(f, o, stop_fields=True)
+                        lens = [x for x in ogs if x.kind == 'call' and x.data.name == 'len']
+                        hit = False
+                        for x in lens:
+                            deep = core.origins(f, x.data.args[0], stop_fields=True) if x.data.args else []
+                            if any(d.kind == 'field' and d.data[1] == fld for d in deep) or (fld == 'inner' and 'AtomicBitVec' in x.data.path):
+                                hit = True
+                        sides.append(hit)
+                    if all(sides):
+                        carry = core.flows_forward(f, s['d'][0])
+                        for j in f.reachable():
+                            t = f.blocks[j]['t']
+                            if t['k'] == 'switch' and op_local(t['o']) in carry:
+                                for v, tg in t['vals'] + [[None, t['otherwise']]]:
+                                    is_true = (v is None and all(x == 0 for x, _ in t['vals'])) or (v is not None and v != 0)
+                                    if (s['r']['op'] == 'Eq') == is_true:
+                                        guards.append(tg)
+        if guards and all(c.bb not in f.reach_from([0], avoid_enter=guards) for c in ors):
+            ctx.ok(rid, key, ors[0].where(), 'or_with only on the edge where both filters have the same %s' % what)
+        else:
+            ctx.bad(rid, key, ors[0].where(), 'two bloom filters can be merged without their %s having been compared: a filter built with a different configuration is OR-ed in, the merged filter probes bits the other one never set and answers `absent` for its keys' % what)
+
+
 RULES = [
     Rule('C10.B1', 'every `definitely absent` answer lies in its owner and is controlled by that owner\'s justifying test; defaults are NeedAdditionalCheck', b1, 11),
     Rule('C10.B2', 'filter.add(key) dominates every insertion into the in-memory header map', b2, 2),
@@ -481,5 +524,6 @@ RULES = [
     Rule('C10.B6', 'the bloom buffer is off-loaded only from an on-disk index, through one guarded entry point', b6, 2),
     Rule('C10.B7', 'every transition to OnDisk comes with bloom_offset = Some(..)', b7, 2),
     Rule('C10.B8', 'a transition back to InMemory re-initialises the filter (C04.T5 instances)', b8, 2),
+    Rule('C10.B10', 'bloom filters are merged only when hasher count and bit length are equal', b10, 2),
     Rule('C10.B9', 'the range merge can extend both bounds in one call', b9, 1),
 ]
